@@ -3636,3 +3636,112 @@ C08_SDC_STEP = dict(
               "!gbind (src_mcmc_step run (pi_steps (sdc_wrapped {state})) (pi_st (sdc_wrapped {state}))) (fun s__ => GRet (sdc_with_state {state} s__))")],
 )
 ALL += [C08_IMPL_N_OBS, C08_SDC_INIT, C08_SDC_STATE, C08_SDC_N_OBS, C08_SDC_RESET, C08_SDC_SET_RNG, C08_SDC_RNG, C08_SDC_STEP]
+
+# ---- C10 (second part): the dict methods of the two posterior-sample classes and Theta.equals (vocabulary: Model/ThetaDicts.v;
+# generated file Generated/SrcThetaDicts.v; proofs Proofs/C10SourceDicts.v).  A parameter dict is a `strdict pval` (string keys = code
+# point lists, values of the four kinds PArr / PNum / PInts / PNums); the dataclass fields are typed by kind.  Trusted per entry: the
+# dataclass declaration (checked against the class body: decorator, bases, field names and order, no __init__ / __post_init__ ...),
+# the coercions field -> dict value (PArr / PNum) and back (as_arr / as_num: Err 95 = a value of another kind, outside the model),
+# and one library call each below.  Which field goes under which key, the three exported columns, zip / dict on the way back, the
+# ** unpacking, the loops / early returns / key tests of equals come from the translation.
+_PV = "(pval A F)"
+_PD = "strdict " + _PV
+_AF = [("A", "Type"), ("F", "Type")]
+_TBL = "pairdict F"                       # single_effect_lookup: {(sample id, treatment id): float}
+_ROWS = "list ((Z * Z) * F)"              # list(d.items()) of such a dict
+_D10 = dict(out="SrcThetaDicts.v", imports="Model.ThetaDicts", strings=True, strdict_elem=_PV, overload=True, key_error=94, type_error=93,
+            coerce=[("A", _PV, "PArr {x}"), ("F", _PV, "PNum {x}")],
+            checked_coerce=[(_PV, "A", "as_arr {x}"), (_PV, "F", "as_num {x}")])
+_NO_STORE = "a_store_to_this_field_is_not_declared {obj} {val}"       # not a Gallina term: a store is refused by Coq
+_SC = "(sc_sample A F)"
+_SC_FIELD_T = [("W", "A"), ("W0", "A"), ("V2", "A"), ("V1", "A"), ("V0", "A"), ("alpha", "F"), ("precision", "F")]
+_SC_FIELDS = {n: (_SC, t, "sc_%s {obj}" % n, _NO_STORE) for n, t in _SC_FIELD_T}
+_SC_CLASS = dict(_D10, file="src/batchie/models/sparse_combo.py", cls="SparseDrugComboMCMCSample", fields=_SC_FIELDS,
+                 dataclass=dict(owner=_SC, bases=["Theta"], fields=[n for n, _ in _SC_FIELD_T]))
+C10D_SC_PRIVATE = dict(      # `return self.__dict__`: the instance dict of the dataclass = its fields in declaration order
+    _SC_CLASS, func="private_parameters_dict", name="src_sc_private_parameters_dict", pyparams=["self"],
+    params=_AF + [("self", _SC)], returns=_PD, vars={},
+    # checked: the class defines neither of these itself, so it runs Theta's translated shared_parameters_dict / equals
+    inherits=[("SparseDrugComboMCMCSample", "Theta", ["shared_parameters_dict", "equals"])])
+C10D_SC_FROM = dict(         # `return cls(**private_params)`: the dataclass constructor takes exactly its fields
+    _SC_CLASS, func="from_dicts", name="src_sc_from_dicts", pyparams=["cls", "private_params", "shared_params"],
+    params=_AF + [("private_params", _PD), ("shared_params", _PD)], returns=_SC, vars={},
+    kwcalls={"cls": ("Build_sc_sample A F {W} {W0} {V2} {V1} {V0} {alpha} {precision}", _SC, [(n, t, None) for n, t in _SC_FIELD_T])})
+C10D_THETA_SHARED = dict(    # the base class's shared_parameters_dict (`return {}`), inherited by SparseDrugComboMCMCSample
+    _D10, file="src/batchie/core.py", cls="Theta", func="shared_parameters_dict", name="src_theta_shared_parameters_dict",
+    pyparams=["self"], params=_AF + [("T", "Type"), ("self", "T")], returns=_PD, vars={})
+_IN = "(in_sample A F)"
+_IN_FIELD_T = [("W", "A"), ("V2", "A"), ("precision", "F"), ("single_effect_lookup", _TBL)]
+_IN_FIELDS = {n: (_IN, t, "in_%s {obj}" % ("lookup" if n == "single_effect_lookup" else n), _NO_STORE) for n, t in _IN_FIELD_T}
+_IN_CLASS = dict(_D10, file="src/batchie/models/sparse_combo_interaction.py", cls="SparseDrugComboInteractionMCMCSample",
+                 fields=_IN_FIELDS, dataclass=dict(owner=_IN, bases=["Theta"], fields=[n for n, _ in _IN_FIELD_T]))
+C10D_IN_PRIVATE = dict(
+    _IN_CLASS, func="private_parameters_dict", name="src_in_private_parameters_dict", pyparams=["self"],
+    params=_AF + [("self", _IN)], returns=_PD, vars={"params": _PD},
+    inherits=[("SparseDrugComboInteractionMCMCSample", "Theta", ["equals"])])       # checked: it runs Theta's translated equals
+C10D_IN_SHARED = dict(
+    _IN_CLASS, func="shared_parameters_dict", name="src_in_shared_parameters_dict", pyparams=["self"],
+    params=_AF + [("self", _IN)], returns=_PD,
+    vars={"dict_items": _ROWS, "single_effect_lookup_keys1": _PV, "single_effect_lookup_keys2": _PV, "single_effect_lookup_vals": _PV,
+          "params": _PD},
+    prims=[("list(__d.items())", "{d}", _ROWS, {"d": _TBL}),                     # the items in the dict's iteration order
+           ("np.array(__l)", "PInts {l}", _PV, {"l": "list Z"}),                 # a 1-d array holding these values
+           ("np.array(__l)", "PNums {l}", _PV, {"l": "list F"})])
+C10D_IN_FROM = dict(
+    _IN_CLASS, func="from_dicts", name="src_in_from_dicts", pyparams=["cls", "private_params", "shared_params"],
+    params=_AF + [("private_params", _PD), ("shared_params", _PD)], returns=_IN,
+    vars={"single_effect_lookup_keys": "list (Z * Z)", "single_effect_lookup": _TBL, "res": _IN},
+    prims=[("zip(__a, __b)", "!zip_ids {a} {b}", "list (Z * Z)", {"a": _PV, "b": _PV}),           # two id columns: pairs up to the shorter
+           ("zip(__a, __b)", "!zip_vals {a} {b}", _ROWS, {"a": "list (Z * Z)", "b": _PV}),         # (the zip object is consumed once)
+           ("dict(__l)", "table_of_pairs {l}", _TBL, {"l": _ROWS})],                               # inserted from the left
+    kwcalls={"cls": ("Build_in_sample A F {W} {V2} {precision} {single_effect_lookup}", _IN, [(n, t, None) for n, t in _IN_FIELD_T])})
+# Theta.equals, for ANY class T of samples given by its class test and its two dict methods (parameters of the translation)
+C10D_EQUALS = dict(
+    _D10, file="src/batchie/core.py", cls="Theta", func="equals", name="src_theta_equals", pyparams=["self", "other"],
+    params=_AF + [("aeqb", "A -> A -> bool"), ("feqb", "F -> F -> bool"), ("T", "Type"), ("same_class", "T -> T -> bool"),
+                  ("priv", "T -> result (pdict A F)"), ("shar", "T -> result (pdict A F)"), ("self", "T"), ("other", "T")],
+    returns="bool", vars={"d1": _PD, "d2": _PD, "k": "pystr", "v": _PV}, loop_return=True, tail_dup=True,
+    ignore=["print(__a)"],
+    prims=[("isinstance(__b, type(__a))", "same_class {a} {b}", "bool", {"a": "T", "b": "T"}),
+           ("__t.private_parameters_dict()", "!priv {t}", _PD, {"t": "T"}),      # method dispatch: the class's own dict methods
+           ("__t.shared_parameters_dict()", "!shar {t}", _PD, {"t": "T"}),
+           ("isinstance(__v, Number)", "pval_is_number {v}", "bool", {"v": _PV}),
+           ("isinstance(__v, ArrayType)", "pval_is_array {v}", "bool", {"v": _PV}),
+           ("__a != __b", "!py_ne feqb {a} {b}", "bool", {"a": _PV, "b": _PV}),                     # two scalars
+           ("np.array_equal(__a, __b)", "!np_array_equal aeqb feqb {a} {b}", "bool", {"a": _PV, "b": _PV})])
+C10D_ALL = [C10D_SC_PRIVATE, C10D_SC_FROM, C10D_THETA_SHARED, C10D_IN_PRIVATE, C10D_IN_SHARED, C10D_IN_FROM, C10D_EQUALS]
+ALL += C10D_ALL
+
+# ---- C14 / C06 leftovers: Screen.concat, Screen.single_treatment_effects (vocabulary: end of Model/Views.v; Generated/SrcPlates.v),
+# SizeScorer.score (end of Model/Scores.v; Generated/SrcScoring.v) ----
+# Screen.concat: `new_tag` is the identity of the Screen objects that combine creates (never tested here; the link holds for every value)
+L10B_SCREEN_CONCAT = dict(
+    _H14, cls="Screen", func="concat", name="src_screen_concat", pyparams=["cls", "screens"], unused_params=["cls"],
+    params=[("new_tag", "Z"), ("screens", "list pyscreen")], returns="pyscreen", vars={"result": "pyscreen", "screen": "pyscreen"},
+    prims=[("len(__l)", "Z.of_nat (length {l})", "Z", {"l": "list pyscreen"}),
+           ("__l[0]", "!list_get {l} (0)", "pyscreen", {"l": "list pyscreen"}),
+           ("__l[1:]", "tl {l}", "list pyscreen", {"l": "list pyscreen"}),
+           # a.combine(b) runs the translated Screen.combine; its result is a new object
+           ("__a.combine(__b)", "!(dor c__ <- src_screen_combine {a} {b}; Ok (new_tag, c__))", "pyscreen", {"a": "pyscreen", "b": "pyscreen"})],
+    raises=[("Cannot concat empty list", 24)])
+# Screen.single_treatment_effects: create_single_treatment_effect_array is ANY function effect_array (its own translation is linked
+# by C20 in the Synergy vocabulary); `key_error` = the tag its KeyError carries
+L10B_SCREEN_STE = dict(
+    _H14, cls="Screen", func="single_treatment_effects", name="src_screen_single_treatment_effects", pyparams=["self"],
+    params=[("E", "Type"), ("key_error", "Z"), ("effect_array", "(list Z -> list (list Z) -> list Z -> result (list E))"),
+            ("self", "pyscreen")],
+    returns="opt list E", vars={}, prims=C14_SCREEN_SIZE["prims"][:-1],       # the C14 block's Screen attributes
+    except_tags={"KeyError": "key_error"},
+    kwcalls={"create_single_treatment_effect_array": (
+        "!effect_array {sample_ids} {treatment_ids} {observation}", "list E",
+        [("sample_ids", "list Z", None), ("treatment_ids", "list (list Z)", None), ("observation", "list Z", None)])},
+    ignore=["logger.warning(__a)"])
+# SizeScorer.score: the plates dict is `dict subset` (C06: a Plate where a ScreenSubset is expected is its rows), plate.size = their number
+L10B_SIZE_SCORER = dict(
+    file="src/batchie/scoring/size.py", cls="SizeScorer", func="score", out="SrcScoring.v", imports="Model.Scores",
+    name="src_size_scorer_score", pyparams=["self", "plates", "distance_matrix", "samples", "rng", "progress_bar"],
+    unused_params=["self", "distance_matrix", "samples", "rng", "progress_bar"],
+    params=[("plates", "dict subset")], returns="dict", vars={"scores": "dict"},
+    prims=[("__p.size", "Z.of_nat (length {p})", "Z", {"p": "subset"})])
+L10B_EXTRA = [L10B_SCREEN_CONCAT, L10B_SCREEN_STE, L10B_SIZE_SCORER]
+ALL += L10B_EXTRA
